@@ -149,6 +149,15 @@ def run(chk):
     run_scenarios(chk, 'apply submissions while a lazy map-family call is open', ov, {'C09', 'C03'}, nontrivial=lambda sc, o: True,
                   dist=lambda sc, o: {'lazy': sc['ops'][0]['op'], 'start': sc['pool']['start_method'], 'failures': bool((sc['ops'][1].get('fail') or {}).get('at'))})
 
+    # an apply task with a timeout is in flight when a map-family call without timeouts starts on the same pool, and overruns while
+    # that call runs: only that task fails — the map call and the other apply tasks are not affected
+    from harness.checks.C08 import mixed_scenarios, mixed_judge
+    ms = mixed_scenarios(rng, 60 if chk.tier == 'quick' else 900)
+    mobs = run_scenarios(chk, 'an apply task times out while a map-family call runs on the same pool', ms, {'C09', 'C03'}, nontrivial=lambda sc, o: True,
+                         dist=lambda sc, o: {'map_kind': sc['ops'][1]['op'], 'n_jobs': sc['pool']['n_jobs']})
+    for sc, o in zip(ms, mobs):
+        mixed_judge(chk, sc, o)
+
     def search():
         run_scenarios(chk, 'search', apply_scenarios(random.Random(chk.seed * 23 + 7), 1000), {'C09', 'C03'})
     return search
